@@ -67,7 +67,8 @@ pub fn write_evidence(ev: &Evidence) {
 
 /// write a replay file and print the VIOLATION line; returns the path
 pub fn report_violation(property: &str, tag: &str, replay: &Value) -> PathBuf {
-    let dir = verif_root().join("replays");
+    // VERIF_REPLAY_DIR lets development runs against seeded changes keep /verif/replays clean
+    let dir = std::env::var_os("VERIF_REPLAY_DIR").map(PathBuf::from).unwrap_or_else(|| verif_root().join("replays"));
     let _ = std::fs::create_dir_all(&dir);
     let path = dir.join(format!("{property}-{tag}.json"));
     std::fs::write(&path, serde_json::to_string_pretty(replay).unwrap()).unwrap_or_else(|e| harness_error(&format!("write replay: {e}")));
